@@ -101,6 +101,11 @@ class Verifier(Stmts):
             self.setcell(ok, r, z3.Store(z, k, False)); outs.append((ok, mk_none()))
         return outs
     def bm_set_copy(self, st, r, args, kw, node): return [(st, self.alloc(st, r.t, self.deref(st, r)))]
+    def bm_set_isdisjoint(self, st, r, args, kw, node):
+        a = args[0]
+        if not isinstance(a.t, SetT) or a.t != r.t: raise Unsupported('isdisjoint with %s' % a.t)
+        k = z3.Const(fresh_name('k'), sort_of(r.t.elem))
+        return [(st, mk_bool(z3.ForAll([k], z3.Not(z3.And(z3.Select(self.deref(st, r), k), z3.Select(self.deref(st, a), k))))))]
     def bm_set_update(self, st, r, args, kw, node):
         self.need_typed(r, node)
         a = args[0]
@@ -174,7 +179,8 @@ class Verifier(Stmts):
         return [(st, self.alloc(st, r.t, self.deref(st, r)))]
     def bm_dict_keys(self, st, r, args, kw, node):
         if r.t.k == ANY: return [(st, V(IterT(), []))]
-        return [(st, V(IterT(), self.perm_of_keys(st, r.t, self.deref(st, r))))]
+        t = r.t; D = self.deref(st, r); kk = z3.Const(fresh_name('kk'), sort_of(t.k))
+        return [(st, self.alloc(st, SetT(t.k), z3.Lambda([kk], z3.Not(opt_is_none(opt(t.v), z3.Select(D, kk))))))]
     def bm_dict_values(self, st, r, args, kw, node):
         t = r.t
         if t.k == ANY: return [(st, V(IterT(), []))]
